@@ -31,6 +31,7 @@ ASSUMPTIONS = ["a literal directory nested in a literal directory has a strictly
                "the traversal runs without concurrent modification of the directories"]
 
 import json
+import os
 
 import common
 from common import hx
@@ -89,6 +90,10 @@ def gen_graph(rng, nobj):
 
 NAMES = ["a", "b", "c", "d", "e", "f", "g", "h", "é", "é", "zz", "A", "B", "10", "9", "ä", "日本", "x y"]
 
+# fixed corpus (runs first, independent of VERIF_SEED): one minimal graph per known mechanism —
+#  the same subdirectory linked twice from one directory, by write cap and by read cap, inside a cycle (seeded C21-a:
+#  queued twice before it is entered); literal files linked twice and an empty one under deep-check (seeded C21-b);
+#  several traversals over CHK/LIT files in one process (seeded C21-c: histogram shared between DeepStats instances)
 CORPUS = [
     # a cycle, the same directory linked by write cap and by read cap, literal file linked twice
     {"objs": [{"kind": "mdir", "mdmf": False, "links": [["a", 1, "rw"], ["b", 1, "ro"], ["l1", 2, "ro"], ["l2", 2, "ro"], ["u", 3, "ro"]]},
@@ -429,7 +434,7 @@ def run(ctx):
     else:
         cases_in = [json.loads(json.dumps(c)) for c in CORPUS]
         sizes = [3, 6, 10, 16, 25, 40]
-        for i in range(ctx.budget(18, 250)):
+        for i in range(0 if os.environ.get("VERIF_CORPUS_ONLY") == "1" else ctx.budget(18, 250)):
             cases_in.append(gen_graph(ctx.rng, ctx.rng.choice(sizes)))
     lines, impls, cases = [], [], []
     with grid.Runtime(seed=ctx.seed, policy="random") as rt:
